@@ -20,10 +20,16 @@ import (
 	"bytes"
 	"encoding/binary"
 	"encoding/hex"
+	"math"
 	"strings"
+	"time"
 
 	"github.com/codenotary/immudb/embedded/sql"
+	"github.com/google/uuid"
 )
+
+// pgEpochMicros is 2000-01-01 00:00:00 UTC, the origin of the binary timestamp format, in microseconds since 1970
+const pgEpochMicros = 946684800 * 1000000
 
 // DataRow if ResultColumnFormatCodes is nil default text format is used
 func DataRow(rows []*sql.Row, colNumb int, ResultColumnFormatCodes []int16) []byte {
@@ -56,8 +62,8 @@ func DataRow(rows []*sql.Row, colNumb int, ResultColumnFormatCodes []int16) []by
 			}
 			if BINformat {
 				if val.IsNull() {
-					n := -1
-					binary.BigEndian.PutUint32(valueLength, uint32(n))
+					// announced below with length -1 (an empty value is not NULL)
+					value = nil
 				} else {
 					rv := val.RawValue()
 					switch val.Type() {
@@ -92,6 +98,23 @@ func DataRow(rows []*sql.Row, colNumb int, ResultColumnFormatCodes []int16) []by
 							blob := rv.([]byte)
 							binary.BigEndian.PutUint32(valueLength, uint32(len(blob)))
 							value = blob
+						}
+					case sql.Float64Type:
+						{
+							// float8: IEEE 754, big-endian
+							value = make([]byte, 8)
+							binary.BigEndian.PutUint64(value, math.Float64bits(rv.(float64)))
+						}
+					case sql.TimestampType:
+						{
+							// timestamp: microseconds since 2000-01-01 00:00:00 UTC
+							value = make([]byte, 8)
+							binary.BigEndian.PutUint64(value, uint64(rv.(time.Time).UnixMicro()-pgEpochMicros))
+						}
+					case sql.UUIDType:
+						{
+							u := rv.(uuid.UUID)
+							value = append([]byte(nil), u[:]...)
 						}
 					}
 				}
